@@ -230,6 +230,8 @@ def describe_port_event(ev):
   d = dict(spec="PortView", action=ev["a"], via="trace")
   if ev["a"] in ("Status", "EarlyStatus"):
     d["reason"] = ev["args"]["r"]
+  if ev["args"].get("lis", "none") != "none":
+    d["listeners"] = ev["args"]["lis"]
   if not ev["wf"]:
     d["observed"] = "malformed observation: %s" % (ev.get("why"),)
   return d
@@ -240,6 +242,8 @@ def describe_stats_event(ev):
   if ev["a"] == "Part":
     d["type"] = T6[ev["args"]["k"] - 1]
     d["final"] = not ev["args"]["more"]
+    if ev["args"]["raw"] != "none":
+      d["raw_listeners"] = ev["args"]["raw"]
   else:
     d["kind"] = ev["args"]["kind"]
   if not ev["wf"]:
@@ -248,6 +252,7 @@ def describe_stats_event(ev):
 
 
 # ---- ports driver
+MODES = ["listen", "halt_nexus", "halt_con", "raise_nexus", "raise_con", "remove_nexus", "remove_con"]
 NAMES3, HWS3 = ["a", "b", "c"], ["A", "B", "C"]
 PNAMES, PHWS = ["a", "b", "c", "zz"], ["A", "B", "C", "ZZ"]
 NONE = {"name": "-", "hw": "-", "st": 0}
@@ -302,16 +307,19 @@ def drive_ports(arg):
     dens = rnd.choice([0.0, 0.5, 0.8, 1.0])
     return [rrec() if rnd.random() < dens else dict(NONE) for _ in range(NP)]
 
+  def rlis():
+    return "none" if rnd.random() < 0.4 else rnd.choice(MODES)
+
   def rstatus():
     r = rnd.choice(["add", "mod", "mod", "del"])
-    return dict(r=r, p=rnd.randint(1, NP), rec=rrec(), ports=[dict(NONE)] * NP)
+    return dict(r=r, p=rnd.randint(1, NP), rec=rrec(), ports=[dict(NONE)] * NP, lis=rlis())
 
-  plan = [("FeaturesHS", dict(r="-", p=0, rec=dict(NONE), ports=rports()))]
-  plan += [("EarlyStatus", rstatus()) for _ in range(rnd.choice([0, 0, 1, 2, 3]))]
-  plan.append(("Barrier", dict(r="-", p=0, rec=dict(NONE), ports=[dict(NONE)] * NP)))
+  plan = [("FeaturesHS", dict(r="-", p=0, rec=dict(NONE), ports=rports(), lis="none"))]
+  plan += [("EarlyStatus", dict(rstatus(), lis="none")) for _ in range(rnd.choice([0, 0, 1, 2, 3]))]
+  plan.append(("Barrier", dict(r="-", p=0, rec=dict(NONE), ports=[dict(NONE)] * NP, lis=rlis())))
   for _ in range(n):
     if rnd.random() < 0.06:
-      plan.append(("Features", dict(r="-", p=0, rec=dict(NONE), ports=rports())))
+      plan.append(("Features", dict(r="-", p=0, rec=dict(NONE), ports=rports(), lis=rlis())))
     else:
       plan.append(("Status", rstatus()))
   tr = []
@@ -320,6 +328,8 @@ def drive_ports(arg):
     try:
       obs = ad.step(a, args)
       wf = True
+    except core.Machinery:
+      raise
     except Exception as e:
       obs, wf, why = None, False, "exception %s" % type(e).__name__
     out = dict(cur=_dummy_view(NP), orig=_dummy_view(NP))
@@ -360,7 +370,7 @@ def drive_stats(arg):
   tr = []
   for _ in range(n):
     if rnd.random() < 0.15:
-      a, args = "Other", dict(kind=rnd.choice(OTHERS), k=0, more=False, n=0)
+      a, args = "Other", dict(kind=rnd.choice(OTHERS), k=0, more=False, n=0, raw="none")
       sargs = dict(kind=args["kind"])
     else:
       open_keys = [k for k in range(7) if nparts[k] > 0 and nparts[k] < KMAX6[k]]
@@ -377,8 +387,9 @@ def drive_stats(arg):
       more = (not single) and nparts[k] + 1 < KMAX6[k] and rnd.random() < 0.6
       cnt = 1 if single else rnd.choice([0, 1, 1, 2, 3, 5])
       a = "Part"
-      args = dict(kind="-", k=k + 1, more=more, n=cnt)
-      sargs = dict(k=k + 1, t=T6[k], x=X6[k], g=gen[k], first=nent[k] + 1, n=cnt, more=more)
+      raw = "none" if rnd.random() < 0.4 else rnd.choice(MODES)
+      args = dict(kind="-", k=k + 1, more=more, n=cnt, raw=raw)
+      sargs = dict(k=k + 1, t=T6[k], x=X6[k], g=gen[k], first=nent[k] + 1, n=cnt, more=more, raw=raw)
       if more:
         nparts[k] += 1
         nent[k] += cnt
@@ -390,6 +401,8 @@ def drive_stats(arg):
     try:
       obs = ad.step(a, sargs)
       wf = True
+    except core.Machinery:
+      raise
     except Exception as e:
       obs, wf, why = None, False, "exception %s" % type(e).__name__
     out = dict(con=[], nexus=[])
@@ -425,8 +438,9 @@ def run(ctx):
               "record traces from the real code which TLC validates against the specs.  distinct = distinct "
               "action/argument sequences; non-trivial = more than one step")
   ctx.assumptions = [
-      "PortView exhaustive transition cover: 3 port numbers x 2 names x 2 addresses and 2 port numbers x 2 names x "
-      "2 addresses x link flag (quick; + 3 ports with link flag and 4 port numbers x 2 names in thorough), features "
+      "PortView exhaustive transition cover: 3 port numbers x 2 names x 2 addresses, and 2 port numbers x link flag "
+      "under all 8 listener modes (quick; + 2 ports x 2 names x 2 addresses x link flag, 3 ports with link flag and "
+      "4 port numbers x 2 names in thorough), features "
       "replies from a fixed list incl. empty / duplicate names and addresses / gaps; 1 notification inside the "
       "handshake; 4 ports x 3 names x 3 addresses x link flag, histories of 12-34 notifications and up to 3 "
       "notifications inside the handshake only by TLC simulation and random traces",
@@ -451,13 +465,16 @@ def run(ctx):
   try:
     # all TLC work is queued now; EX_*.cfg = model check + graph export in one run, MC_*.cfg = model check only
     mcs = [("MCPortView", "MC_hist3.cfg", PORT_ACTIONS)]
-    pgraphs = [("EX_edges_P3q.cfg" if quick else "EX_edges_P3.cfg", 3), ("EX_edges_P2s.cfg", 2)]
+    pgraphs = [("EX_edges_P3q.cfg" if quick else "EX_edges_P3.cfg", 3)]
     sgraphs = ["EX_S1_flow.cfg", "EX_S3q_flow.cfg" if quick else "EX_S3_flow.cfg"]
     sgraphs += ["EX_S2_%s.cfg" % t for t in types]
+    # the listener environment: every way other components may treat the raw per-part event / PortStatus
+    sgraphs += ["EX_S2r_flow.cfg"] if quick else ["EX_S2r_%s.cfg" % t for t in types]
+    pgraphs += [("EX_edges_P2l.cfg", 2)]
     if not quick:
       mcs += [("MCPortView", "MC_P2w.cfg", PORT_ACTIONS), ("MCPortView", "MC_hist4.cfg", PORT_ACTIONS),
               ("MCStatsAgg", "MC_S3w_flow.cfg", STAT_ACTIONS)]
-      pgraphs += [("EX_edges_P3s.cfg", 3), ("EX_edges_P4.cfg", 4)]
+      pgraphs += [("EX_edges_P2s.cfg", 2), ("EX_edges_P3s.cfg", 3), ("EX_edges_P4.cfg", 4)]
       sgraphs += ["EX_S1_%s.cfg" % t for t in others] + ["EX_S3_%s.cfg" % t for t in others]
     for cfg, _ in pgraphs:
       jobs.graph("MCPortView", cfg, PORT_ACTIONS)
